@@ -125,7 +125,7 @@ def continue_cases(draw):
         o["StepsPerTs"] = draw(st.integers(40, 200))
         o["InterpolationPoints"] = draw(st.sampled_from([2, 3, 4]))
     o["RenormalizeCharge"] = draw(st.sampled_from([-1, -1, 0, 4]))
-    o["InitialDistZoom"] = draw(st.sampled_from([0.7, 0.85, 1.0]))
+    o["InitialDistZoom"] = draw(st.sampled_from([0.7, 0.85, 0.7, 0.85, 1.0]))
     # mostly charge-conserving configurations (bunch well inside the grid, real interpolation): only there is
     # renormalisation a rounding-level correction and the 2e-5 bound meaningful
     if draw(st.integers(0, 4)) > 0:
@@ -142,8 +142,8 @@ def continue_cases(draw):
     if o.get("DampingTime") is None and draw(st.booleans()):
         o["DampingTime"] = 0.0
     steps = o["StepsPerTs"]
-    L1 = draw(st.integers(1, 60))
-    L2 = draw(st.integers(1, 60))
+    L1 = draw(st.one_of(st.integers(1, 4), st.integers(5, 60), st.integers(5, 60), st.integers(5, 60)))
+    L2 = draw(st.one_of(st.integers(1, 4), st.integers(5, 60), st.integers(5, 60), st.integers(5, 60)))
     outstep = draw(st.sampled_from([1, 2, 5, max(1, L1)]))
     sel = draw(st.sampled_from([None, None, -1, -2, 0, 1, 3]))
     return dict(opts=o, L1=L1, L2=L2, outstep=outstep, startstep=sel, save2=draw(st.sampled_from([0, 1, 3])))
